@@ -343,6 +343,23 @@ func cmdSig(args []string) {
 	// certificates signed with their own key under another issuer name (issuer # subject, AKI = own SKI): not self-issued,
 	// so inside the property's quantifier, and the only ones on which a signature check could succeed
 	objs = append(objs, generatedSelfSignedNotSelfIssued()...)
+	// certificates whose outer signatureAlgorithm differs from the one inside the to-be-signed part (a rule compares the two):
+	// a sample of the corpus with the outer identifier replaced
+	for i, o := range c.Certs {
+		if i%9 != int(seed)%9 || bytes.Equal(o.Cert.RawIssuer, o.Cert.RawSubject) {
+			continue
+		}
+		if fc, err := forge.ParseCert(o.DER); err == nil {
+			other := forge.Cons(0x10, forge.OID(1, 2, 840, 10045, 4, 3, 3)) // ecdsa-with-SHA384
+			if bytes.Equal(fc.OuterAlg().Bytes(), other.Bytes()) {
+				other = forge.Cons(0x10, forge.OID(1, 2, 840, 113549, 1, 1, 12), forge.Prim(0x05, nil))
+			}
+			fc.Root.Children[1] = other
+			if cert, ok, _ := corpus.ParseCert(fc.Bytes()); ok {
+				objs = append(objs, &Target{Kind: "cert", ID: "forged:outer-alg:" + o.ID, DER: fc.Bytes(), Cert: cert})
+			}
+		}
+	}
 	h := newHistory(objs)
 	type kept struct {
 		oi int
@@ -402,6 +419,19 @@ func cmdSig(args []string) {
 				return append(out, bytes.Repeat([]byte{0x22}, rest)...)
 			},
 		}
+		// a signature made of pieces of the certificate itself: a rule that searches raw bytes finds its needle in the signature
+		fill := func(piece []byte) func(o []byte) []byte {
+			return func(o []byte) []byte {
+				for i := range o {
+					o[i] = piece[i%len(piece)]
+				}
+				return o
+			}
+		}
+		variants["embed-inner-alg"] = fill(append([]byte{}, fc.InnerAlg().Bytes()...))
+		variants["embed-outer-alg"] = fill(append([]byte{}, fc.OuterAlg().Bytes()...))
+		variants["embed-tbs-head"] = fill(append([]byte{}, t.Cert.RawTBSCertificate[:min(len(t.Cert.RawTBSCertificate), 200)]...))
+		variants["embed-spki"] = fill(append([]byte{}, fc.SPKI().Bytes()...))
 		for k := 0; k < nrandom; k++ {
 			variants[fmt.Sprintf("random%d", k)] = func(o []byte) []byte {
 				rng.Read(o)
